@@ -189,14 +189,34 @@ class Constraints(object):
             return {}
         if len(syms) > 5:
             return {}  # too many symbols to enumerate: assume feasible
+        if not fm_feasible(self.facts):
+            return None  # empty already over the rationals (with integer tightening): no need to enumerate
         rng = range(-1, 3 * bound + 1)
         nrange = range(1, bound + 1)
         doms = [nrange if s == "n" else rng for s in syms]
-        for vals in itertools.product(*doms):
-            env = dict(zip(syms, vals))
-            if all(f.evaluate(env) >= 0 for f in self.facts):
-                return env
-        return None
+        # the same search space as a plain product (same order), with a fact checked as soon as all its symbols have a value
+        ready: List[List[Aff]] = [[] for _ in syms]
+        for f in self.facts:
+            fs = f.symbols()
+            last = max((syms.index(x) for x in fs), default=-1)
+            if last < 0:
+                if f.evaluate({}) < 0:
+                    return None
+                continue
+            ready[last].append(f)
+        env: Dict[str, int] = {}
+
+        def place(i: int) -> bool:
+            if i == len(syms):
+                return True
+            for v in doms[i]:
+                env[syms[i]] = v
+                if all(f.evaluate(env) >= 0 for f in ready[i]) and place(i + 1):
+                    return True
+            env.pop(syms[i], None)
+            return False
+
+        return dict(env) if place(0) else None
 
 
 def _normalise(co: Dict[str, int], c: int):
